@@ -63,9 +63,12 @@ def build_data(spec):
     """-> {t: tree} raw data with real values."""
     data = {}
     lp = leaf_paths(spec['shape'])
+    absent = spec.get('absent') or {}
     for i, t in enumerate(spec['times']):
         row = {}
         for path, tag in lp:
+            if absent.get(pkey(path)) and absent[pkey(path)][i]:
+                continue        # ragged history: variable missing at this time
             cur = row
             for seg in path[:-1]:
                 cur = cur.setdefault(seg, {})
@@ -216,6 +219,8 @@ def classify(spec, res):
                         falsy_q = True
     if falsy_q:
         res.label('query.falsy')
+    if spec.get('absent'):
+        res.label('ragged')
     if hasq:
         res.label('quantity')
     res.nontrivial = falsy_q or hasq or deep
@@ -243,12 +248,14 @@ def check_emitter(res, spec, data, em):
         res.fail('emitter.times', '%r != %r' % (list(raw), spec['times']))
         return
     for t in spec['times']:
-        if not same(prune(raw[t]), data[t]):
+        if not same(prune(raw[t]), prune(data[t])):
             res.fail('emitter.row', 't=%r: %r != %r' % (t, raw[t], data[t]))
             return
-    check_timeseries(res, spec, data, em.get_timeseries(), 'get_timeseries')
-    check_path_timeseries(res, spec, data, em.get_path_timeseries(),
-                          'get_path_timeseries')
+    ragged = bool(spec.get('absent'))
+    if not ragged:
+        check_timeseries(res, spec, data, em.get_timeseries(), 'get_timeseries')
+        check_path_timeseries(res, spec, data, em.get_path_timeseries(),
+                              'get_path_timeseries')
     q = spec.get('query')
     if q:
         got = em.get_data_deserialized([tuple(p) for p in q])
@@ -257,14 +264,39 @@ def check_emitter(res, spec, data, em):
             return
         for t in spec['times']:
             want = expected_query(data[t], q)
-            if not same(got[t], want):
+            if not same(prune(got[t]), prune(want)):
                 res.fail('query.row', 'query %r at t=%r: %r, expected %r'
                          % (q, t, got[t], want))
                 return
+        # timeseries views of a query: only the queried variables, aligned
+        qs = [tuple(p) for p in q if p]
+
+        def restrict(shape, path=()):
+            out = {}
+            for k, v in shape.items():
+                pth = path + (k,)
+                if isinstance(v, dict):
+                    sub = restrict(v, pth)
+                    if sub:
+                        out[k] = sub
+                elif any(pth[:len(x)] == x for x in qs):
+                    out[k] = v
+            return out
+        spec_q = dict(spec, shape=restrict(spec['shape']))
+        data_q = {t: expected_query(data[t], q) for t in spec['times']}
+        if not ragged:
+            check_timeseries(res, spec_q, data_q,
+                             em.get_timeseries([tuple(p) for p in q]),
+                             'get_timeseries(query)')
+            check_path_timeseries(res, spec_q, data_q,
+                                  em.get_path_timeseries([tuple(p) for p in q]),
+                                  'get_path_timeseries(query)')
+        if res.violations:
+            return
         gotu = em.get_data_unitless([tuple(p) for p in q])
         for t in spec['times']:
             want = remove_units(expected_query(data[t], q))
-            if not same(gotu[t], want):
+            if not same(prune(gotu[t]), prune(want)):
                 res.fail('query.unitless', 'at t=%r: %r, expected %r'
                          % (t, gotu[t], want))
                 return
@@ -438,8 +470,20 @@ def strategy_(draw, tier):
                          st.lists(st.sampled_from(KEYS + ['zz']), min_size=1,
                                   max_size=3).map(cut))
         query = draw(st.lists(cand, min_size=1, max_size=4, unique_by=tuple))
-    return {'mode': mode, 'shape': shape, 'times': times, 'cells': cells,
+    spec = {'mode': mode, 'shape': shape, 'times': times, 'cells': cells,
             'query': query}
+    if mode == 'emitter' and query and n >= 2 and draw(st.integers(0, 2)) == 0:
+        # ragged history (query clause only): some variables are missing at
+        # some times, e.g. an agent that divided or died
+        absent = {}
+        for path, tag in lp:
+            if draw(st.booleans()):
+                mask = [draw(st.booleans()) for _ in range(n)]
+                if any(mask) and not all(mask):
+                    absent[pkey(path)] = mask
+        if absent:
+            spec['absent'] = absent
+    return spec
 
 
 def strategy(tier):
